@@ -2037,6 +2037,7 @@ func (s *Netceptor) runProtocol(ctx context.Context, sess BackendSession, bi *Ba
 		logger:           s.Logger,
 	}
 	ci.Context, ci.CancelFunc = context.WithCancel(ctx)
+	defer ci.CancelFunc() // every way out ends the reader, writer and init goroutines, also a rejection
 	ci.vn, ci.vsess = s.vn, fmt.Sprintf("%p", sess)
 	verifhook.Emit(s.vn, "sess_start", "sess", ci.vsess, "cost", bi.connectionCost, "allow", bi.allowedPeers, "nodecost", bi.nodeCost)
 	go ci.protoReader(sess)
